@@ -209,18 +209,19 @@ def _run(call: GeneratorCall) -> Module:
     # given there. Re-naming it in place again would make its name depend on the call history.
     handed_on = m._generated_by is not None
 
-    # Give the result a reference back to the generating `Call`
-    m._generated_by = call
-
     # Module naming
+    # Done before anything is written to `m`: if naming raises, `m` is left as the generator-function returned it.
     if not handed_on:
         # If the Module that comes back is anonymous, start by giving it a name equal to the Generator's
-        if m.name is None:
-            m.name = call.gen.name
+        name = call.gen.name if m.name is None else m.name
 
         # If it has a nonzero number of parameters, add a unique suffix per its parameter-values
         if hasparams(call.gen.Params):
-            m.name += "(" + _unique_name(call.params) + ")"
+            name += "(" + _unique_name(call.params) + ")"
+        m.name = name
+
+    # Give the result a reference back to the generating `Call`
+    m._generated_by = call
 
     return m
 
